@@ -233,6 +233,58 @@ def rule_P3(ctx, which: str = "std") -> None:
     ctx.floor("P3", f"{which} shared enums", n_enums, 18)
 
 
+def _module_tables(models, kw) -> Dict[Any, Any]:
+    """module-level names of the plugin that are bound once to a dict comprehension, or to the result of a module function
+    called without arguments, and evaluate (by constant propagation) to a dict display with constant keys"""
+    from ..absint import Interp
+    from ..sym import N
+    out: Dict[Any, Any] = {}
+    for st in models.tree.body:
+        if not isinstance(st, (ast.Assign, ast.AnnAssign)) or st.value is None:
+            continue
+        tg = st.targets[0] if isinstance(st, ast.Assign) else st.target
+        if not isinstance(tg, ast.Name) or tg.id in models.consts:
+            continue
+        if isinstance(st.value, ast.Call) and isinstance(st.value.func, ast.Name) and models.has(st.value.func.id) and not st.value.args and not st.value.keywords \
+                and isinstance(models.defs[st.value.func.id][0], ast.FunctionDef):
+            fn = models.func(st.value.func.id)
+        elif isinstance(st.value, ast.DictComp):
+            fn = ast.parse("def _vt_module_table():\n    return 0").body[0]
+            fn.body[0].value = st.value
+            ast.fix_missing_locations(fn)
+        else:
+            continue
+        try:
+            paths = [p for p in Interp(models, aliases=dict(out), **kw).run(fn) if p.outcome == "return"]
+        except AnalysisError:
+            continue
+        if len(paths) == 1 and paths[0].value is not None and paths[0].value[0] == "dictd" and all(k[0] == "c" for k, _ in paths[0].value[1]):
+            out[N(tg.id)] = paths[0].value
+    return out
+
+
+def _field_wraps_by_class(ctx, models, imp, init, cnames) -> Dict[str, Any]:
+    """FieldCompiler.field_wraps at proto_obj.type_name = '.google.protobuf.<class>' for every class name: the constant it
+    returns (None = not a wrapper).  Anything that does not fold to one constant is an analysis error, never a verdict."""
+    from ..absint import Interp
+    from ..sym import A, N, show
+    fw = models.func("FieldCompiler.field_wraps")
+    kw: Dict[str, Any] = dict(fork_ifexp=True, local_tables=True, module_attrs={"betterproto": set(init.consts) | set(init.defs)})
+    if "WRAPPER_TYPES" in imp.consts and any(isinstance(st, ast.ImportFrom) and any(a.name == "WRAPPER_TYPES" and a.asname in (None, "WRAPPER_TYPES") for a in st.names) for st in models.tree.body):
+        kw["extra_consts"] = {"WRAPPER_TYPES": imp.consts["WRAPPER_TYPES"]}
+    tables = _module_tables(models, kw)
+    out: Dict[str, Any] = {}
+    for cname in cnames:
+        tn = f".google.protobuf.{cname}"
+        paths = [p for p in Interp(models, bindings={A(A(N("self"), "proto_obj"), "type_name"): tn}, aliases=tables, **kw).run(fw) if p.outcome == "return"]
+        ctx.count(len(paths))
+        vals = {p.value for p in paths}
+        if len(paths) != 1 or any(v is None or v[0] != "c" for v in vals):
+            raise AnalysisError(f"field_wraps: does not fold to a constant for {tn}: {[show(v)[:80] if v else None for v in vals]}")
+        out[cname] = next(iter(vals))[1]
+    return out
+
+
 def rule_P4(ctx) -> None:
     imp = ctx.repo.mod(M_IMPORTING)
     init = ctx.repo.mod(M_INIT)
@@ -248,19 +300,18 @@ def rule_P4(ctx) -> None:
                     wt.add(k.value.split(".")[-1])
     if not wt:
         raise AnalysisError("importing.py: WRAPPER_TYPES vanished")
-    # table 2: names accepted by field_wraps: regex x hasattr(betterproto, TYPE_...)
+    # table 2: names accepted by field_wraps - the property evaluated by constant propagation at the type name of every class of
+    # the bundled library (however it decides: a regular expression and hasattr(betterproto, ...), or a table derived from
+    # WRAPPER_TYPES when the module is loaded)
     fw = models.func("FieldCompiler.field_wraps")
-    pats = [n.args[0].value for n in ast.walk(fw) if isinstance(n, ast.Call) and ast.unparse(n.func) == "re.match" and n.args and isinstance(n.args[0], ast.Constant)]
-    if len(pats) != 1:
-        raise AnalysisError("field_wraps: regex literal not found")
-    rx = re.compile(pats[0])
+    wraps_of = _field_wraps_by_class(ctx, models, imp, init, sorted(set(lib) | wt))
     accepted: Set[str] = set()
-    for cname in lib:
-        m = rx.match(f".google.protobuf.{cname}")
-        if m and f"TYPE_{m.group(1).upper()}" in init.consts:
+    for cname, w in wraps_of.items():
+        if w is not None:
+            if not (isinstance(w, str) and w.startswith("betterproto.TYPE_") and w[len("betterproto."):] in init.consts):
+                ctx.refuted("P4", f"wrapper[{cname}]", f"wraps={w}", models.loc(fw), f"field_wraps yields {w!r} for google.protobuf.{cname}, which is not a TYPE_* constant of the runtime")
+                continue
             accepted.add(cname)
-    if any(isinstance(n, ast.Compare) and isinstance(n.ops[0], ast.In) and ast.unparse(n.comparators[0]) == "WRAPPER_TYPES" for n in ast.walk(fw)):
-        accepted &= wt      # field_wraps additionally requires membership in WRAPPER_TYPES
     # table 3: _get_wrapper
     gw = init.table_function("_get_wrapper")
     gwc = {(ast.unparse(v) if isinstance(v, ast.AST) else str(v)): k for k, v in gw.items()}
@@ -619,6 +670,24 @@ def rule_P9(ctx) -> None:
         ctx.proved("P9", "generate_code:options-final-before-reading-types", parser.loc(fn), f"{len(assigns)} option assignments precede {len(reads)} read sites")
 
 
+def field_args_at(models, wraps, optional, qual: str = "FieldCompiler.betterproto_field_args"):
+    """the list betterproto_field_args returns when self.field_wraps / self.optional hold the given constants, by constant
+    propagation: (tuple of strings, None) when it folds, else (None, atoms the result still depends on)"""
+    from ..absint import Interp
+    from ..sym import A, N, show
+    fn = models.func(qual)
+    paths = [p for p in Interp(models, bindings={A(N("self"), "field_wraps"): wraps, A(N("self"), "optional"): optional}, fork_ifexp=True, replay_logs=True).run(fn) if p.outcome == "return"]
+    atoms = sorted({show(k) for p in paths for k in p.valuation})
+    if len(paths) != 1 or paths[0].value is None:
+        return None, atoms
+    v = paths[0].value
+    if v[0] == "c" and isinstance(v[1], tuple) and all(isinstance(x, str) for x in v[1]):
+        return tuple(v[1]), None
+    if v[0] in ("list", "tuple") and all(x[0] == "c" and isinstance(x[1], str) for x in v[1]):
+        return tuple(x[1] for x in v[1]), None
+    return None, atoms or [show(v)[:120]]
+
+
 def rule_P10(ctx) -> None:
     """wrapper metadata survives in every position where the plugin unwraps a wrapper type to its scalar:
     a field annotated Optional[int] for Int32Value must carry wraps=..., or the runtime takes `int` for the message class"""
@@ -629,11 +698,30 @@ def rule_P10(ctx) -> None:
     me_init = models.func("MapEntryCompiler.__post_init__")
     ctx.analysed("FieldCompiler.betterproto_field_args", "MapEntryCompiler.betterproto_field_args", "MapEntryCompiler.__post_init__", "map_field")
     # singular / repeated fields: wraps= is emitted whenever field_wraps is set
-    emits_wraps = any(isinstance(n, ast.If) and "field_wraps" in ast.unparse(n.test) and "wraps=" in ast.unparse(n) for n in ast.walk(fc_args))
-    if emits_wraps:
-        ctx.proved("P10", "field:wrapper-metadata", models.loc(fc_args))
+    # (the argument list evaluated at field_wraps = a TYPE_* reference / None, optional = True / False)
+    verdicts = []
+    for wraps in ("betterproto.TYPE_BOOL", None):
+        for opt in (True, False):
+            got, dep = field_args_at(models, wraps, opt)
+            ctx.count(1)
+            if got is None:
+                verdicts.append(("unknown", f"field_wraps={wraps!r}, optional={opt}: the argument list does not fold ({dep})"))
+            elif wraps is not None and f"wraps={wraps}" not in got:
+                verdicts.append(("bad", f"with field_wraps={wraps!r} (optional={opt}) the arguments are {list(got)}: no wraps={wraps}"))
+            elif wraps is None and any(a.startswith("wraps=") for a in got):
+                verdicts.append(("bad", f"with field_wraps=None (optional={opt}) the arguments are {list(got)}: a wraps= argument for a field that is not a wrapper"))
+    bad = [d for k, d in verdicts if k == "bad"]
+    unknown = [d for k, d in verdicts if k == "unknown"]
+    if bad:
+        ctx.refuted("P10", "field:wrapper-metadata", "no-wraps-argument", models.loc(fc_args), "FieldCompiler does not emit wraps= exactly for wrapper-typed fields: " + bad[0])
+    elif unknown:
+        emits_wraps = any(isinstance(n, ast.If) and "field_wraps" in ast.unparse(n.test) and "wraps=" in ast.unparse(n) for n in ast.walk(fc_args))
+        if emits_wraps:
+            ctx.proved("P10", "field:wrapper-metadata", models.loc(fc_args), "an `if` on field_wraps appends wraps=")
+        else:
+            ctx.inconclusive("P10", "field:wrapper-metadata", unknown[0][:300], models.loc(fc_args))
     else:
-        ctx.refuted("P10", "field:wrapper-metadata", "no-wraps-argument", models.loc(fc_args), "FieldCompiler no longer emits wraps= for wrapper-typed fields")
+        ctx.proved("P10", "field:wrapper-metadata", models.loc(fc_args), "wraps=<field_wraps> is in the argument list exactly when field_wraps is set (4 scenarios)")
     # map values: the value type comes from a helper FieldCompiler's py_type (unwrapping on) ...
     # (a wrapper-typed value re-referenced with unwrap=False under a test on the wrapper table keeps the message class)
     keeps_wrapper = any(isinstance(n, ast.If) and "WRAPPER_TYPES" in ast.unparse(n.test) and any(
